@@ -228,9 +228,8 @@ def form_case(ctx, els, directed=None):
                     if tgt is None:
                         continue
                     if x[3] == "xforms-value-changed":
-                        text = tgt["calc"]
-                        tq = next((q for q, p, _ in walked if p == x[0]), None)
-                        ctx_reps = reps_of.get(tq["name"]) if tq else ()
+                        # the value of a nested set-node is expanded from the TARGET node (its `ref`)
+                        text, ctx_reps = tgt["calc"], reps_of[tgt["name"]]
                     else:
                         text, ctx_reps = tgt["default"], reps_of[tgt["name"]]
                     if text and value_ok(text, ctx_reps, info, x[4]) and y[4] == abs_sub(text, paths):
@@ -312,7 +311,7 @@ def form_case(ctx, els, directed=None):
                 t = by_name[REF_RE.findall(key)[0]]
                 tp = paths[t["name"]]
                 ok = (len(trigs) == 1 and trigs[0][0] == tp and trigs[0][1] == want_tag and trigs[0][3] == "xforms-value-changed"
-                      and ((trigs[0][4] is None and not q["calc"]) or (q["calc"] and value_ok(q["calc"], reps_of[t["name"]], info, trigs[0][4]))))
+                      and ((trigs[0][4] is None and not q["calc"]) or (q["calc"] and value_ok(q["calc"], reps, info, trigs[0][4]))))
                 if not ok:
                     ctx.fail(Failure("trigger-setvalue", f"{p}: trigger {key!r}: nested set-nodes {trigs!r}, expected one {want_tag} in {tp}", case, extra=tsite))
             elif len(trigs) != 1:
@@ -337,7 +336,9 @@ def q(name, cell="text", **kw):
 
 
 def directed_forms():
-    """F8 shapes and the corner cases of the mechanism"""
+    """trigger cells that are not one reference to a visible question (formerly finding F8: now rejected by
+    Survey._is_usable_trigger — reverting that repair makes the oracle report `trigger-dropped`) and the corner
+    cases of the mechanism"""
     a, b = q("a"), q("b", "integer")
     out = []
     for trig in ["${a}, ${b}", "x ${a}", "${a} ${b}", "(${a})"]:
@@ -393,16 +394,6 @@ def explore(ctx, factor, bs):
     }
 
 
-def f8(failure):
-    """F8: the trigger cell is not exactly one reference to a question that renders a control; the
-    calculation is neither nested as a set-node nor kept as bind calculate (builder._save_trigger stores it
-    under the raw cell text, Survey.get_trigger_values_for_question_name looks up f"${{{name}}}" from
-    Question.xml_control only)."""
-    e = failure.extra
-    return (failure.kind == "trigger-dropped" and e.get("shape") in ("not-a-single-ref", "section", "hidden-question")
-            and e.get("n_nested") == 0 and not e.get("has_calculate"))
-
-
 def replay(ctx, payload, bs):
     before = len(ctx.failures), len(ctx.mismatches)
     case = payload.get("case") or {}
@@ -423,4 +414,4 @@ def replay(ctx, payload, bs):
 
 
 def main(argv):
-    return vcore.run_check(PROP, explore, RULE, matchers={"F8-trigger-not-single-question-ref": f8}, replay=replay, argv=argv)
+    return vcore.run_check(PROP, explore, RULE, matchers={}, replay=replay, argv=argv)
